@@ -81,6 +81,28 @@ func runC08(c *Ctx) {
 				"key originates from "+describeOrigin(bad)+": a negotiated format carrying parameters (e.g. '; charset=utf-8') would miss its producer and silently fall back to the default producer")
 		}
 	}
+	// a table built on the spot for the negotiated format is built from the very list the format was negotiated from
+	// (the offers, API default included): whatever negotiation can pick has its producer in the table
+	{
+		_, rfa := callArgs(&rf.Call)
+		for _, in := range instrs(f) {
+			lk, ok := in.(*ssa.Lookup)
+			if !ok || typeStr(lk.X.Type()) != "map[string]rt.Producer" || !isNormFormat(lk.Index) {
+				continue
+			}
+			for _, o := range originsOf(lk.X) {
+				t := asCall(o.V)
+				if t == nil || calleeName(&t.Call) != "(rt/middleware.RoutableAPI).ProducersFor" {
+					continue
+				}
+				_, a := callArgs(&t.Call)
+				okSrc, _ := allOrigins(a[0], oCallWhere(-1, "rt/middleware.normalizeOffers", func(n *ssa.Call) bool {
+					return len(rfa) >= 2 && (n.Call.Args[0] == rfa[1] || sameOrigins(n.Call.Args[0], rfa[1]))
+				}))
+				c.obI("R08.1", t, "adhoc-table-covers-the-offers", okSrc, "a producer table built for the negotiated format is ProducersFor(normalizeOffers(<the list handed to the negotiation>))", "the table is built from another list than the one the format was negotiated from: the always-offered API default has no producer in it (Respond panics after having written the status)")
+			}
+		}
+	}
 	c.min("R08.1", 6)
 	ruleAddRouteDefaults(c, "R08.1", "Produce")
 
@@ -608,6 +630,23 @@ func ruleAuthorizeErrorsVerbatim(c *Ctx, rule string) {
 		// never replaced by it
 		if isGeneric, _ := allOrigins(resOf(r, 2), oCall(-1, "github.com/go-openapi/errors.Unauthenticated")); isGeneric {
 			c.obI(rule, r, "generic-401-only-without-scheme-error", guardedBy(r, a, factNil(vIs(aerr), true)), "errors.Unauthenticated is returned only when the authenticators reported no error of their own (err == nil): a rejecting scheme's error is what the client sees", "the generic 401 can replace an error a scheme reported")
+		}
+		// the 403 made from the authorizer's error replaces it only when that error carries no status of its own: an
+		// errors.Error — whatever its code, 5xx included — is what the client gets
+		if made, _ := allOrigins(resOf(r, 2), oCall(-1, "github.com/go-openapi/errors.New")); made {
+			var ta *ssa.TypeAssert
+			for _, in := range instrs(f) {
+				if t, isTA := in.(*ssa.TypeAssert); isTA && t.CommaOk && strings.HasSuffix(typeStr(t.AssertedType), "errors.Error") {
+					if okX, _ := allOrigins(t.X, isAuthzErr); okX {
+						ta = t
+					}
+				}
+			}
+			if ta == nil {
+				c.obRI(rule, r, "own-status-of-authorizer-error-kept", false, "a 403 is made from the authorizer's error only when that error is no errors.Error", "no type test of the authorizer's error found")
+			} else {
+				c.obI(rule, r, "own-status-of-authorizer-error-kept", guardedBy(r, ta, factBool(vIs(extractOf(ta, 1)), false)), "a 403 is made from the authorizer's error only when that error is no errors.Error: an error carrying its own status is handed on unchanged, whatever the status", "the fresh 403 is reachable for an authorizer error that IS an errors.Error (its own status — e.g. a 503 — is replaced)")
+			}
 		}
 		c.obI(rule, r, "authentication-error-handed-on-verbatim", ok, "the error Authorize returns is the scheme's own error, errors.Unauthenticated, the authorizer's error or a 403 made from it", "origin "+describeOrigin(bad))
 	}
